@@ -81,10 +81,12 @@ theorem shortcuts_eq :
   cases h1 : n == "stdout".toList <;> cases h2 : n == "stderr".toList <;> cases h3 : n == "stdin".toList <;> rfl
 
 /-- the plugin hooks as the `plugin` case of `decode` has them: exactly one string `type` key (compared lower-cased), and
+an empty name is an error (it is no registered name: `decode` reports `pluginname`), and
 the fillConf closure ALWAYS runs `config.DecodeAndValidate(confData, conf)` on the rest of the block — also when the rest
 is empty — and returns its error; `Hook` / `FactoryHook` hand that closure to `plugin.New` / `plugin.NewFactory` -/
 theorem plugin_fill :
-    Gen.Config.parseConfConds = ["!x11", "PluginNameKey == strings.ToLower(x8)", "len(x7) == 0", "len(x7) > 1", "x5 != nil"] ∧
+    Gen.Config.parseConfConds = ["!x11", "PluginNameKey == strings.ToLower(x8)", "len(x7) == 0", "len(x7) > 1",
+      "x2 == \"\"", "x5 != nil"] ∧
     Gen.Config.fillConfStmts = ["x13 := config.DecodeAndValidate(x6, x12)", "if x13 != nil", "return x13"] ∧
     Gen.Config.fillConfReturns = ["return x13"] ∧
     Gen.Config.pluginHookCalls = ["Hook: plugin.New(t, name, fillConf)", "FactoryHook: plugin.NewFactory(t, name, fillConf)"] :=
